@@ -26,6 +26,8 @@ pub mod c11;
 pub mod c12;
 pub mod c13;
 pub mod c14;
+pub mod c15;
+pub mod c16;
 
 pub fn all() -> Vec<Scenario> {
     let mut v = vec![];
@@ -41,5 +43,7 @@ pub fn all() -> Vec<Scenario> {
     c12::register(&mut v);
     c13::register(&mut v);
     c14::register(&mut v);
+    c15::register(&mut v);
+    c16::register(&mut v);
     v
 }
